@@ -155,6 +155,10 @@ def check_pipeline(trans, params=(), dopts=(), split=None, src='export', src_opt
 
 # pipelines per property: (trans, params, dest-opts[, source format, source options])
 PIPELINES = {
+    'C04': [(['add_topnode', 'negra_mark_heads', 'binarize'], ['bare_bin_labels'], []),
+            (['root_attach', 'negra_mark_heads', 'boyd_split', 'raising'], ['quiet'], []),
+            (['add_topnode', 'collapse_unary_chains', 'uncollapse_unary_chains'], ['quiet'], []),
+            (['punctuation_root', 'add_topnode', 'root_attach', 'negra_mark_heads', 'binarize'], [], [])],
     'C05': [(['root_attach', 'negra_mark_heads', 'boyd_split', 'raising'], [], ['boyd_split_marking']),
             (['root_attach', 'negra_mark_heads', 'boyd_split'], ['quiet'], ['boyd_split_marking', 'boyd_split_numbering']),
             (['negra_mark_heads', 'boyd_split', 'raising'], [], ['gf'], 'brackets', ['gf_split'])],
